@@ -89,7 +89,7 @@ func vC14Hook(s *vKindSys, h []string) {
 				}
 			}
 			got := dist(int(e.code[m]))
-			if got > best+1e-5*math.Max(1, best) {
+			if got > best+1e-5*math.Max(vXFUnit(s.cfg.Metric, 2), best) {
 				cause := ""
 				if ksub > 256 {
 					cause = "code-does-not-fit-uint8"
@@ -134,7 +134,7 @@ func vC14Hook(s *vKindSys, h []string) {
 				eu += x * x
 			}
 			eu = math.Sqrt(eu)
-			tol := 1e-5 * math.Max(math.Max(1, eu), math.Max(qerr[id], float64(r.Score)))
+			tol := 1e-5 * math.Max(math.Max(vXFUnit(s.cfg.Metric, 1), eu), math.Max(qerr[id], float64(r.Score)))
 			if math.Abs(float64(r.Score)-eu) > qerr[id]+tol {
 				s.c.Violation("score-outside-quantisation-error", "", s.cfgS, h, fmt.Sprintf("q=%v id %d: score %v, Euclidean distance %v, quantisation error %v", q, id, r.Score, eu, qerr[id]))
 			}
@@ -332,6 +332,21 @@ func vC14Configs(tier string) []vVecCfg {
 			}
 		}
 	}
+	// many subspaces (M beyond any unrolling width and not a multiple of it): every M in
+	// 9..17 (quick: one parameterisation each), 20, 24, 31, 32, 33
+	ms := []int{9, 10, 11, 12, 13, 14, 15, 16, 17, 20, 24, 31, 32, 33}
+	for i, m := range ms {
+		metric := []DistanceKind{Euclidean, L2Squared, Cosine}[i%3]
+		if tier != "thorough" && metric == L2Squared {
+			metric = Euclidean
+		}
+		out = append(out, vVecCfg{Kind: "ivfpq", Metric: metric, Dim: 2 * m, NList: 2, M: m, NBits: 2, Train: -2})
+		out = append(out, vVecCfg{Kind: "pq", Metric: metric, Dim: m, M: m, NBits: 1, Train: -2})
+		if tier == "thorough" {
+			out = append(out, vVecCfg{Kind: "ivfpq", Metric: Euclidean, Dim: m, NList: 1, M: m, NBits: 3, Train: -2})
+			out = append(out, vVecCfg{Kind: "pq", Metric: Cosine, Dim: 2 * m, M: m, NBits: 2, Train: -2})
+		}
+	}
 	return out
 }
 
@@ -341,7 +356,7 @@ func vC14Sys(c *vCtx, cfg vVecCfg) *vKindSys {
 		n = cfg.NList * 10
 	}
 	s := newKindSys(c, cfg, 3)
-	s.train = vLattice(cfg.Dim, n)
+	s.train = vXFVecs(vLattice(cfg.Dim, n))
 	if cfg.Train == -3 {
 		for _, v := range s.train {
 			for j := range v {
@@ -395,6 +410,22 @@ func init() {
 					vBFS(c, vC14Sys(c, cfg), d)
 				}})
 			}
+			// affine transforms of the data (zz_verif_vec.go): scaled by 2^-20, 2^-40, 2^20,
+			// shifted by 4096, 2^20, 20000
+			for _, cfg := range []vVecCfg{{Kind: "pq", Metric: Euclidean, Dim: 2, M: 2, NBits: 2, Train: -2}, {Kind: "pq", Metric: L2Squared, Dim: 4, M: 2, NBits: 4, Train: -2},
+				{Kind: "ivfpq", Metric: Euclidean, Dim: 2, NList: 2, M: 1, NBits: 2, Train: -2}, {Kind: "ivfpq", Metric: L2Squared, Dim: 4, NList: 2, M: 2, NBits: 3, Train: -2}, {Kind: "pq", Metric: Cosine, Dim: 2, M: 1, NBits: 3, Train: -2}} {
+				cfg := cfg
+				for _, x := range vXFs {
+					x := x
+					if cfg.Metric == Cosine && x.Off != 0 {
+						continue
+					}
+					sh = append(sh, vShard{Name: fmt.Sprintf("xf/%g:%d/%s", x.Off, x.Exp, strings.ReplaceAll(cfg.String(), " ", ",")), Run: func(c *vCtx) {
+						defer vXFSet(x, cfg.Metric)()
+						vBFS(c, vC14Sys(c, cfg), 3)
+					}})
+				}
+			}
 			// large instances (hundreds to thousands of vectors, k up to n)
 			for _, cfg := range []vVecCfg{{Kind: "pq", Metric: Euclidean, Dim: 4, M: 2, NBits: 3, Train: 2}, {Kind: "ivfpq", Metric: Euclidean, Dim: 4, NList: 3, M: 2, NBits: 3, Train: 2}, {Kind: "ivfpq", Metric: Cosine, Dim: 4, NList: 4, M: 2, NBits: 4, Train: 2}} {
 				cfg := cfg
@@ -403,6 +434,8 @@ func init() {
 			return sh
 		},
 		Replay: func(c *vCtx, v *vViolation) bool {
+			defer vXFParse(v.Config, vParseVecCfg(v.Config).Metric)()
+			v.Config = vXFStrip(v.Config)
 			if i := strings.Index(v.Config, " large n="); i >= 0 {
 				var n int
 				fmt.Sscanf(v.Config[i:], " large n=%d", &n)
